@@ -46,7 +46,7 @@ func init() {
 			c.Rep.floor("G1", 350)
 			runR_C01(c)
 		},
-		explanation: "Structural necessary conditions of C01 decided statically: (G11) the work list cannot report success before every generator is Done and name lookup answers only under the type comparison; (G1) no generator error is dropped or swallowed; (G8) every plugin is registered once, every deps[...] key is bound and every discovered call reaches Add or the deferred list; (G13) Field.Private agrees with Go's exportedness on every class of first characters and unvendor strips whole vendor path elements only; (Engine R) every accepted abstract run of every plugin emits text that parses and gofmt-s (R1), refers only to holes / universe names / identifiers it declares (R2), uses exactly the imports it requested (R3), marks what it generates (Generating must-pass-through) and, where kinds are determined, type-checks against the documented helper signatures (R4, thorough). Not decided: import-alias collisions, the multi-pass reload loop, _test files, shapes beyond the stated bounds. Added: (R4, every tier) every accepted run of every plugin — also runs whose text repeats but whose holes stand for other types — is type-checked with go/types against declarations built from the path (kinds, exact basic kinds, struct fields incl. a blank first field, defined vs literal types, identities, directional assignability, user methods found by the lookup predicates, documented helper signatures); runs the model cannot express are counted as untyped. (G12) HasUndefined examines whole types; (G14) the finder always continues into the children of a node; (G16) every load includes test files, tolerates errors, and nobody reads a package's Errors list; (R1) no blank field is selected, unsafe casts use the field's own type. Fourth session: FieldStrings interpreted; struct tags containing a percent sign in the input space; mangled twin for type text in format position; alternative basic kinds / untyped nil / slice / channel-direction declarations for whatever a path left open (each alternative a possible input: a type error is a definite compile error for it); (G14) reserved set complete before naming; (G9) canEqual/canCopy/IsComparable tabulated; (G8) every recorded call becomes a call record. Since wave 6: a TypeString result (which registers an import) must reach the output (R3); the cast type that reads a private field of an imported struct is the field's own type or, exactly when that type was established unexported, its Underlying() (G33/R1); blank named results are part of the abstract input space; Generating is asked about the value that was registered; string cuts in helper names are rune-aligned (G15); canEqual asks for Equal methods before licensing == (G9). Engine G analyses the helper-inlined view of the driver (normalise.go; notes in this evidence say what was inlined). Wave 8: a leftover derived.gen.go must not decide whether the package loads (G22: the FindPackage hook hides the file from the directory listing go/build reads — dropping the name after Import is reported), every successful run passed Print or Delete (G10) for every initial package (G31: none skipped), the reload loop goes on while a pass generated something (G23 header) and variable cut offsets are bounded by the operand that is cut (G15).",
+		explanation: "Structural necessary conditions of C01 decided statically: (G11) the work list cannot report success before every generator is Done and name lookup answers only under the type comparison; (G1) no generator error is dropped or swallowed; (G8) every plugin is registered once, every deps[...] key is bound and every discovered call reaches Add or the deferred list; (G13) Field.Private agrees with Go's exportedness on every class of first characters and unvendor strips whole vendor path elements only; (Engine R) every accepted abstract run of every plugin emits text that parses and gofmt-s (R1), refers only to holes / universe names / identifiers it declares (R2), uses exactly the imports it requested (R3), marks what it generates (Generating must-pass-through) and, where kinds are determined, type-checks against the documented helper signatures (R4, thorough). Not decided: import-alias collisions, the multi-pass reload loop, _test files, shapes beyond the stated bounds. Added: (R4, every tier) every accepted run of every plugin — also runs whose text repeats but whose holes stand for other types — is type-checked with go/types against declarations built from the path (kinds, exact basic kinds, struct fields incl. a blank first field, defined vs literal types, identities, directional assignability, user methods found by the lookup predicates, documented helper signatures); runs the model cannot express are counted as untyped. (G12) HasUndefined examines whole types; (G14) the finder always continues into the children of a node; (G16) every load includes test files, tolerates errors, and nobody reads a package's Errors list; (R1) no blank field is selected, unsafe casts use the field's own type. Fourth session: FieldStrings interpreted; struct tags containing a percent sign in the input space; mangled twin for type text in format position; alternative basic kinds / untyped nil / slice / channel-direction declarations for whatever a path left open (each alternative a possible input: a type error is a definite compile error for it); (G14) reserved set complete before naming; (G9) canEqual/canCopy/IsComparable tabulated; (G8) every recorded call becomes a call record. Since wave 6: a TypeString result (which registers an import) must reach the output (R3); the cast type that reads a private field of an imported struct is the field's own type or, exactly when that type was established unexported, its Underlying() (G33/R1); blank named results are part of the abstract input space; Generating is asked about the value that was registered; string cuts in helper names are rune-aligned (G15); canEqual asks for Equal methods before licensing == (G9). Engine G analyses the helper-inlined view of the driver (normalise.go; notes in this evidence say what was inlined). Wave 8: a leftover derived.gen.go must not decide whether the package loads (G22: the FindPackage hook hides the file from the directory listing go/build reads — dropping the name after Import is reported), every successful run passed Print or Delete (G10) for every initial package (G31: none skipped), the reload loop goes on while a pass generated something (G23 header) and variable cut offsets are bounded by the operand that is cut (G15). Since wave 10: the naming table accepts a call that the function of its name serves (G7, including the direction of the one-directional eq), dispatch uses the prefixes of this run (G8), and a plugin that serves other plugins rejects in Generate what it rejects in Add (R-dep).",
 		assumptions: commonAssumptions,
 		technique:   "custom static analysis: CFG dominance lints over the driver + abstract interpretation of plugins into residual programs checked with go/parser, go/format and go/types",
 	}
@@ -58,7 +58,7 @@ func init() {
 	}
 	checks["C03"] = &checkDef{
 		run:         func(c *Ctx) { premises(c); runR_C03(c) },
-		explanation: "Engine R on the compare plugin: every residual is (R8) evaluated abstractly over the finite orderings of the operand pairs it mentions (pair ∈ {<,=,>}, nil test ∈ {nil,non-nil}, length pair ∈ {<,=,>}): results stay in {-1,0,+1}, 0 exactly when every examined component is equal, a single differing component decides in its natural direction, nil orders first, and swapping the values negates the result on every row; (R6) helper/method calls and comparisons pair mirror components in (this, that) order; (R19) every field takes part; (R7) guards; nil-ness of every nilable operand is examined (agreement with Equal); no numeric conversion of operands; (R16) maps are traversed through sort(keys(m)) only. Not decided: transitivity across helper boundaries, user Compare methods, stdlib Compare functions. Since wave 6: the nil-blind library-leaf rule (bytes.Compare) is part of this check. Premises shared by every property about emitted code (Engine G, wave 8): a successful run has passed Print or Delete for every initial package (G10, G31: no package is skipped), and the plugins are ordered by the prefixes of this run (G8: every prefix is set before the plugins are constructed and sorted). Wave 8: an ordering or equality operator between mirror components is emitted only where the path established that the component's type is not a named type with its own Compare method (R-method for compare).",
+		explanation: "Engine R on the compare plugin: every residual is (R8) evaluated abstractly over the finite orderings of the operand pairs it mentions (pair ∈ {<,=,>}, nil test ∈ {nil,non-nil}, length pair ∈ {<,=,>}): results stay in {-1,0,+1}, 0 exactly when every examined component is equal, a single differing component decides in its natural direction, nil orders first, and swapping the values negates the result on every row; (R6) helper/method calls and comparisons pair mirror components in (this, that) order; (R19) every field takes part; (R7) guards; nil-ness of every nilable operand is examined (agreement with Equal); no numeric conversion of operands; (R16) maps are traversed through sort(keys(m)) only. Not decided: transitivity across helper boundaries, user Compare methods, stdlib Compare functions. Since wave 6: the nil-blind library-leaf rule (bytes.Compare) is part of this check. Premises shared by every property about emitted code (Engine G, wave 8): a successful run has passed Print or Delete for every initial package (G10, G31: no package is skipped), and the plugins are ordered by the prefixes of this run (G8: every prefix is set before the plugins are constructed and sorted). Wave 8: an ordering or equality operator between mirror components is emitted only where the path established that the component's type is not a named type with its own Compare method (R-method for compare). Since wave 10: on every accepted path a struct field whose type is a named type has had the Compare-method predicate asked about that very type (R-method); emitted selectors name fields of the value's own struct type (R1 selector provenance); no single-value type assertions; every type rendered with TypeString is emitted.",
 		assumptions: append([]string{"a compare helper / Compare method / strings.Compare / bytes.Compare returns the sign of the ordering of its two operands"}, commonAssumptions...),
 		technique:   "abstract interpretation of the compare generator into residual programs + abstract evaluation of each residual over a finite ordering table; AST/guard-set lints",
 	}
@@ -70,7 +70,7 @@ func init() {
 	}
 	checks["C05"] = &checkDef{
 		run:         func(c *Ctx) { premises(c); runR_C05(c) },
-		explanation: "Engine R on deepcopy and clone: (R10) only dst-rooted locations are written; (R11 copy-taint) a src-rooted value reaches dst by plain assignment / *dst = *src / copy() only on paths where the generator established canCopy for exactly that component's type (resolved through the symbolic type graph), helper and method calls are (dst, src) / src.DeepCopy(dst) on mirror components; every nilable component is set to nil exactly under src==nil and freshly allocated (new/make) under src!=nil before it is filled; the destination-slice reuse code is evaluated over {dst nil?, len(dst)?len(src), cap(dst)>=len(src)}: every consistent row must end non-nil with equal length and no reslice beyond capacity; (R19) every field is copied; clone = nil-propagation + fresh allocation + deepcopy(dst, src). G9 tabulates canCopy. Not decided: value equality of the copy, user DeepCopy methods, aliasing inside the prior destination. Premises shared by every property about emitted code (Engine G, wave 8): a successful run has passed Print or Delete for every initial package (G10, G31: no package is skipped), and the plugins are ordered by the prefixes of this run (G8: every prefix is set before the plugins are constructed and sorted). Wave 8: no return/break/goto inside an element loop (R11 exit-inside-element-loop).",
+		explanation: "Engine R on deepcopy and clone: (R10) only dst-rooted locations are written; (R11 copy-taint) a src-rooted value reaches dst by plain assignment / *dst = *src / copy() only on paths where the generator established canCopy for exactly that component's type (resolved through the symbolic type graph), helper and method calls are (dst, src) / src.DeepCopy(dst) on mirror components; every nilable component is set to nil exactly under src==nil and freshly allocated (new/make) under src!=nil before it is filled; the destination-slice reuse code is evaluated over {dst nil?, len(dst)?len(src), cap(dst)>=len(src)}: every consistent row must end non-nil with equal length and no reslice beyond capacity; (R19) every field is copied; clone = nil-propagation + fresh allocation + deepcopy(dst, src). G9 tabulates canCopy. Not decided: value equality of the copy, user DeepCopy methods, aliasing inside the prior destination. Premises shared by every property about emitted code (Engine G, wave 8): a successful run has passed Print or Delete for every initial package (G10, G31: no package is skipped), and the plugins are ordered by the prefixes of this run (G8: every prefix is set before the plugins are constructed and sorted). Wave 8: no return/break/goto inside an element loop (R11 exit-inside-element-loop). Since wave 10: emitted selectors name fields of the value's own struct type, never a promoted field of an embedded struct (R1 selector provenance); a path that ends in a generator panic is reported as uncovered (R0).",
 		assumptions: commonAssumptions,
 		technique:   "abstract interpretation of the deepcopy/clone generators into residual programs + taint/guard-set analyses and a finite resize-state table; predicate tabulation",
 	}
@@ -82,7 +82,7 @@ func init() {
 	}
 	checks["C14"] = &checkDef{
 		run:         func(c *Ctx) { premises(c); runR_C14(c) },
-		explanation: "Engine R on contains/unique/set/union/intersect/filter/takewhile/all/any: guard→effect obligations on each residual, decided with the guard set (conditions with polarity that hold at a statement: enclosing ifs and negations of earlier leaving ifs). contains: `return true` only under an equality test (== licensed by canEqual, else the derived equal helper) of the current element and the item, `return false` only after the loop; union/intersect: the single append/insert is of the current element, into the right result, only under ¬contains(this, v) / contains(that, v) / a comma-ok lookup; filter: slot write list[j]=list[i] and j++ only under predicate(elem), result list[:j]; takewhile: break only under ¬predicate, append only under predicate; all/any: inner/outer constants and polarity; predicate called exactly once per iteration on the range element, forward range; set inserts every element; unique: membership only through derived Equal against an element drawn from the bucket of the element's own derived Hash, write cursor/slot/table updated only for first occurrences, the table records the write cursor. Inputs are not written except by the documented in-place helpers. G9 tabulates contains.canEqual and derive.IsComparable. Not decided: set semantics as such, order of keys(set(..)). Added: contains leaves an iteration only after comparing the element; Hash/Equal lookups tabulated. Since wave 6: a nil map is never inserted into (union: the result map is made when the first argument is nil); contains.canEqual asks for Equal methods (G9). Premises shared by every property about emitted code (Engine G, wave 8): a successful run has passed Print or Delete for every initial package (G10, G31: no package is skipped), and the plugins are ordered by the prefixes of this run (G8: every prefix is set before the plugins are constructed and sorted).",
+		explanation: "Engine R on contains/unique/set/union/intersect/filter/takewhile/all/any: guard→effect obligations on each residual, decided with the guard set (conditions with polarity that hold at a statement: enclosing ifs and negations of earlier leaving ifs). contains: `return true` only under an equality test (== licensed by canEqual, else the derived equal helper) of the current element and the item, `return false` only after the loop; union/intersect: the single append/insert is of the current element, into the right result, only under ¬contains(this, v) / contains(that, v) / a comma-ok lookup; filter: slot write list[j]=list[i] and j++ only under predicate(elem), result list[:j]; takewhile: break only under ¬predicate, append only under predicate; all/any: inner/outer constants and polarity; predicate called exactly once per iteration on the range element, forward range; set inserts every element; unique: membership only through derived Equal against an element drawn from the bucket of the element's own derived Hash, write cursor/slot/table updated only for first occurrences, the table records the write cursor. Inputs are not written except by the documented in-place helpers. G9 tabulates contains.canEqual and derive.IsComparable. Not decided: set semantics as such, order of keys(set(..)). Added: contains leaves an iteration only after comparing the element; Hash/Equal lookups tabulated. Since wave 6: a nil map is never inserted into (union: the result map is made when the first argument is nil); contains.canEqual asks for Equal methods (G9). Premises shared by every property about emitted code (Engine G, wave 8): a successful run has passed Print or Delete for every initial package (G10, G31: no package is skipped), and the plugins are ordered by the prefixes of this run (G8: every prefix is set before the plugins are constructed and sorted). Since wave 10: the hash rules include the float-bits leaf rule (two Equal elements fall into the same bucket).",
 		assumptions: commonAssumptions,
 		technique:   "abstract interpretation into residual programs + guard-set (polarity) effect rules on the residual ASTs; predicate tabulation",
 	}
@@ -196,7 +196,7 @@ func init() {
 			runG9(c, "equal.canEqual", "deepcopy.canCopy", "contains.canEqual", "derive.IsComparable")
 			runR_C09(c)
 		},
-		explanation: "G1: every error-returning call in main/derive/plugin/* (412 on the pinned tree) is returned, or tested with the non-nil branch ending in a non-nil error return / fatal exit; drops, blank assignments, swallows (`if err != nil { return nil }`) and error branches that stay inside a work loop are violations. G12: (*call).HasUndefined is tabulated over go/types kinds — on every path that answers `fully defined` it examined the whole type (String() rendering or every constituent), so unresolved argument types are always deferred. Engine R: no abstract run of any plugin (including runs Add rejects) hits a definite generator panic (index out of the established length, unchecked type assertion on an unrefined kind, Out underflow, explicit panic); no accepted run emits unparsable text; unsupported constituents (chan/func/interface) at every position of the structural plugins end in generator-error runs; operators are emitted only for kinds that support them. Not decided: termination of the reload loop, panics inside third-party code, broken user files. Added: (G15) constant offsets in the driver lie within an established length; (G14) Obj().Pkg() is nil-checked before use (IsExternal only on struct-kinded types, enforced by the interpreter); (G16) the finder records a call only after asserting call.Fun itself to be an identifier; recursion in a generator makes progress (re-entry with the same type arguments = definite non-termination); canEqual/canCopy/IsComparable tabulated incl. blank fields; (R4) every accepted run type-checks, as in C01. Fourth session: R4 alternatives as in C01; (G23) generatePackage returns nil only where no call is left undefined; (G24) nil first argument rejected in (*pkg).Add. Since wave 6: the progress measure of the pass loop has one entry per undefined call (G27) and the loop's exits are decided (G23); a package without files is skipped before any position lookup (G26); R-generating and G15 as in C01; contains.canEqual asks for Equal methods. Engine G analyses the helper-inlined view of the driver (normalise.go; notes in this evidence say what was inlined). Wave 8: variable cut offsets x[:v] are bounded by a test against len of the very operand that is cut (G15); G22 and G31 as in C01/C07; G23 header condition.",
+		explanation: "G1: every error-returning call in main/derive/plugin/* (412 on the pinned tree) is returned, or tested with the non-nil branch ending in a non-nil error return / fatal exit; drops, blank assignments, swallows (`if err != nil { return nil }`) and error branches that stay inside a work loop are violations. G12: (*call).HasUndefined is tabulated over go/types kinds — on every path that answers `fully defined` it examined the whole type (String() rendering or every constituent), so unresolved argument types are always deferred. Engine R: no abstract run of any plugin (including runs Add rejects) hits a definite generator panic (index out of the established length, unchecked type assertion on an unrefined kind, Out underflow, explicit panic); no accepted run emits unparsable text; unsupported constituents (chan/func/interface) at every position of the structural plugins end in generator-error runs; operators are emitted only for kinds that support them. Not decided: termination of the reload loop, panics inside third-party code, broken user files. Added: (G15) constant offsets in the driver lie within an established length; (G14) Obj().Pkg() is nil-checked before use (IsExternal only on struct-kinded types, enforced by the interpreter); (G16) the finder records a call only after asserting call.Fun itself to be an identifier; recursion in a generator makes progress (re-entry with the same type arguments = definite non-termination); canEqual/canCopy/IsComparable tabulated incl. blank fields; (R4) every accepted run type-checks, as in C01. Fourth session: R4 alternatives as in C01; (G23) generatePackage returns nil only where no call is left undefined; (G24) nil first argument rejected in (*pkg).Add. Since wave 6: the progress measure of the pass loop has one entry per undefined call (G27) and the loop's exits are decided (G23); a package without files is skipped before any position lookup (G26); R-generating and G15 as in C01; contains.canEqual asks for Equal methods. Engine G analyses the helper-inlined view of the driver (normalise.go; notes in this evidence say what was inlined). Wave 8: variable cut offsets x[:v] are bounded by a test against len of the very operand that is cut (G15); G22 and G31 as in C01/C07; G23 header condition. Since wave 10: (R-dep) a plugin that other plugins ask for functions through GetFuncName — which never calls Add — rejects in Generate every type shape that its Add rejects: each Add-rejecting abstract path is continued into Generate with the same types, and Generate emitting a function there is a violation (restricted to the kinds of type other plugins request).",
 		assumptions: commonAssumptions,
 		technique:   "custom static analysis: CFG-based error-flow lint + abstract interpretation of plugin Add/Generate with definite-panic detection",
 	}
